@@ -49,6 +49,14 @@ Theorem C08_absent :
     get_values_and_class e k = None -> get_meta im e k ix d = Ok d.
 Proof. intros V. exact (@get_meta_absent V). Qed.
 
+(** No hidden lookup state.  [get_meta], [meta_valid] and [getitem] are Gallina FUNCTIONS of the current image state
+    (shape, slice dim_info, affine), the current extension, the key, the index and the default -- nothing else.  Hence every
+    theorem of this file holds at every moment of any history of header / affine / extension edits and earlier lookups:
+    "the image NO LONGER matches" is just [~ agrees im (hdr_of e) c] for the state at the time of the call.  That the
+    implementation has this shape (its answers do not depend on earlier lookups on the same NiftiWrapper object) is what
+    the part lookup_hist of props/c08.py ties: one wrapper object, in-place perturbations, and at every step the
+    implementation's answers = the model applied to the current state (and = a freshly constructed wrapper). *)
+
 (** totality: for EVERY image header state (no slice dim_info, any shapes on either side), extension, key and
     index the lookup returns a value or raises IndexError -- never another error *)
 Theorem C08_total :
